@@ -682,7 +682,7 @@ class SimNinja:
             if f is not None:
                 rec["fault"] = {k: f[k] for k in ("kind", "n", "code", "mode", "signal", "k") if k in f}
             if f is not None and f["kind"] == "fail_before":
-                rec.update(status=["exit", 1], fired=True, reads=[], writes=[], wdigests={})
+                rec.update(status=["exit", int(f.get("code", 1))], fired=True, reads=[], writes=[], wdigests={})
                 return rec
             argv = split_command(cmd)
             if argv is None:
@@ -729,7 +729,7 @@ class SimNinja:
                 rec["transient"] = [w.rel(p) for p in transient if not w.is_under(p, w.tmpdir)]
                 writes = set(writes) | set(transient)
             if f is not None and f["kind"] == "fail_after":
-                st = ("exit", 1)
+                st = ("exit", int(f.get("code", 1)))
                 rec["fired"] = True
             if lf and st != ("exit", 0):
                 rec["fired"] = True
@@ -796,6 +796,7 @@ class SimNinja:
                     )
             return rec
 
+        first_failure = [None]
         node_dirty = {}
         for e in mf.edges:
             for o in e.outs:
@@ -862,6 +863,10 @@ class SimNinja:
                 done_ok.add(e.idx)
             else:
                 failed = True
+                if first_failure[0] is None:
+                    # ninja >= 1.12 exits with the status of the (first) failing command: its exit code, or 128 + signal
+                    st_ = rec["status"]
+                    first_failure[0] = (st_[1] if st_[0] == "exit" else 128 + st_[1]) or 1
             w.settle()
 
         while True:
@@ -929,7 +934,7 @@ class SimNinja:
                 finish_bookkeeping(e, rec, started_at[e.idx])
                 finished += 1
         if failed and not res.killed:
-            res.rc = 1
+            res.rc = first_failure[0] or 1
         res.order_sig = order_sig.hexdigest()[:16]
         w.settle()
         return res
